@@ -76,6 +76,10 @@ def steady_zoo():
     Z.append(SModel("lin_swap", ("x", "y"),
                     ("x = 0.5*x[-1] + a + 0*e", "y = 0.25*x + 0.5*y[-1]"),
                     dict(a=1.0), dict(x=3.0, y=1.5), True, shocks=("e",), swap=(("x", "a"),), linear=True))
+    # a variable enters an equation ONLY with a lag, and that equation is written first: the block order must still solve x before y
+    Z.append(SModel("lag_only", ("y", "x", "w"),
+                    ("y = a*x[-1]^2 + b + 0*e", "x = 0.5*x[-1] + 1", "w = 0.5*w[-1] + y[+1]*x"),
+                    dict(a=0.75, b=0.5), dict(y=1.0, x=1.0, w=1.0), True, shocks=("e",)))
     Z.append(SModel("ur_drift", ("l", "g"),
                     ("l = l[-1] + g + e", "g = 0.5*g[-1] + 0.1"),
                     dict(), dict(l=1.0, g=0.1), False, shocks=("e",), fix_level=("l",), assign_extra={"l": (1.0, 0.2)}))
@@ -256,8 +260,15 @@ def check_model(run, ir, sm, split):
             terms.append(rt)
     ax = exp_log_axioms(terms + [a for a in assume]) + div_domain(terms)
     r0, _ = run.check_sat(assume + ax, timeout_ms=30000)
+    if r0 == "unsat":
+        # the blocks irispie handed to the solver cannot all be solved (e.g. a block whose equation contains none of its unknowns):
+        # no run can report success with the equations holding.  Decided by replay: the real solve_steady either fails (the
+        # property is conditional on success) or reports success with equations that do not hold.
+        run.counterexample(key, finding + ":blocks", "the sequence of blocks handed to the solver admits no joint solution (success contracts unsatisfiable): "
+                           "a success report cannot come with the equations holding", dict(case, what="blocks"))
+        return
     if r0 != "sat":
-        run.unknown(key, f"reachability witness {r0}: the solver contract is unsatisfiable?")
+        run.unknown(key, f"reachability witness {r0}")
         return
     run.reach_ok += 1
     for labl, got, want in claims_fixed:
